@@ -352,6 +352,52 @@ def gen_mhist(rng):
     return c
 
 
+def make_twins(case, rng):
+    """metamorphic twins of a single-molecule case (statements of C14_fragment_permutation / C14_mate_swap evaluated on
+    the implementation): the same molecule with every fragment attached (force), the same with the fragments in another
+    order, and the same with the mates of every fragment swapped (R2's alignment becomes read 1), the dove distances
+    swapped with them and invert_strand toggled so that molecule.strand can stay what it was"""
+    import copy
+    base = copy.deepcopy(case); base['force'] = True
+    perm = copy.deepcopy(base)
+    if len(perm['frags']) >= 2:
+        k = rng.randrange(1, len(perm['frags']))
+        perm['frags'] = perm['frags'][k:] + perm['frags'][:k]
+        if rng.random() < 0.5:
+            perm['frags'].reverse()
+    swap = copy.deepcopy(base)
+    swap['frags'] = [[b, a] for a, b in swap['frags']]
+    swap['invert'] = not swap['invert']
+    if swap.get('kw'):
+        kw = dict(swap['kw'])
+        kw['dove_R1_distance'], kw['dove_R2_distance'] = kw.get('dove_R2_distance', 0), kw.get('dove_R1_distance', 0)
+        swap['kw'] = kw
+    return base, perm, swap
+
+
+def twin_compare(kind, rb, rt):
+    """None = not comparable (different strand / fragments held); '' = same outcome; text = difference"""
+    if any('harness_error' in r for r in (rb, rt)):
+        return None
+    if rb['strand'] != rt['strand'] or rb['taps_strand_used'] != rt['taps_strand_used']:
+        return None
+    hb = sorted(json.dumps(f) for f in rb['raw'])
+    ht = sorted(json.dumps([f[1], f[0]] if kind == 'swap' else f) for f in rt['raw'])
+    if hb != ht:
+        return None
+    ob, ot = canon_impl(rb), canon_impl(rt)
+    if ob == [-1] or ot == [-1]:
+        return '' if ob == ot else 'one raises AssertionError, the other does not'
+    if not (isinstance(ob[0], list) and isinstance(ot[0], list)) or len(ob) != 2 or len(ot) != 2:
+        return None
+    if ob[0] != ot[0]:
+        d = [e for e in ob[0] if e not in ot[0]] + [e for e in ot[0] if e not in ob[0]]
+        return 'call dictionaries differ at [pos, consensus, letter, cov] %r' % (d[:4],)
+    if sorted(json.dumps(t) for t in ob[1]) != sorted(json.dumps(t) for t in ot[1]):
+        return 'the XM / total tags written to the reads differ'
+    return ''
+
+
 def history_case(h, k):
     """molecule k of history h as a stand-alone case (its own contig as the reference)"""
     c = dict(h['mols'][k]); c['ref'] = h['contigs'][c['contig']]; c['refkind'] = h['refkind']
@@ -415,6 +461,23 @@ def model_input(case, res):
             kw.get('dove_R1_distance', 0), kw.get('dove_R2_distance', 0), [] if minq is None else [minq],
             [ord(c) for c in case['ref']],
             [[[] if a is None else a, [] if b is None else b] for a, b in res['abstract']]]
+
+
+def raw_input(case, res):
+    """the input of the model of the molecule abstraction (mode 6): same configuration fields, field 8 = the fragments
+    as pysam gives them (raw aligned pairs incl. soft clips / insertions / deletions / skips)"""
+    i = model_input(case, res)
+    i[8] = [[[] if a is None else a, [] if b is None else b] for a, b in res['raw']]
+    return i
+
+
+def outcome(o):
+    """canonical implementation outcome -> what specb (mode 2) decodes: [-1] or [[pos, cons, letter, cov] ...]"""
+    if o == [-1]:
+        return [-1]
+    if isinstance(o, list) and o and isinstance(o[0], list):
+        return o[0]
+    return None
 
 
 def canon_impl(res):
@@ -588,16 +651,52 @@ def table_violations(live):
     return out
 
 
+def vm_crosscheck_multi(groups):
+    """fw.vm_crosscheck for several modes in ONE coqc run: groups = [(mode, [(input, extracted output) ...]) ...].
+    Every group is re-evaluated inside Coq by vm_compute with run_C14x (= run_C14 on the old modes).
+    returns (ok, mismatches, cases, log)"""
+    import re
+    d = os.path.join(fw.BUILD, 'vm', 'C14')
+    os.makedirs(d, exist_ok=True)
+    body = ['From Coq Require Import ZArith List.', 'Import ListNotations.',
+            'From SCMO Require Import Lib.Val Model.C14 Model.C14x.', 'Open Scope Z_scope.']
+    groups = [(m, ps) for m, ps in groups if ps]
+    for k, (mode, pairs) in enumerate(groups):
+        body.append('Definition cases%d : list (Val * Val) := [' % k)
+        body.append(';\n'.join('  (%s, %s)' % (fw.coq_val(fw.to_val(i)), fw.coq_val(fw.to_val(o))) for i, o in pairs))
+        body.append('].')
+        body.append('Eval vm_compute in (length (mismatches (run_C14x %d) cases%d), length cases%d).' % (mode, k, k))
+    with open(os.path.join(d, 'cases.v'), 'w') as f:
+        f.write('\n'.join(body) + '\n')
+    rc, out = fw.sh('ulimit -s unlimited 2>/dev/null; timeout 900 coqc -Q %s SCMO cases.v' % fw.COQ, cwd=d, timeout=960)
+    if rc != 0:
+        return False, -1, 0, out
+    res = re.findall(r'=\s*\((\d+)(?:%nat)?,\s*(\d+)(?:%nat)?\)', out)
+    if len(res) != len(groups):
+        return False, -1, 0, out
+    nm = sum(int(a) for a, b in res)
+    n = sum(int(b) for a, b in res)
+    ok = nm == 0 and all(int(b) == len(ps) for (a, b), (m, ps) in zip(res, groups))
+    return ok, nm, n, out
+
+
 class Prop(fw.PropBase):
     ID = 'C14'
     PROPS = 'Props/C14.v'
     TRUSTED = [
-        'modelled not verified: pysam (AlignedSegment.get_aligned_pairs with MD tag, reference_start/end, FastaFile.fetch: '
-        'ValueError for start<0, truncation at the contig end), pysamiterators.CachedFasta.fetch (python slice), numpy '
-        'argmax/tie test of Molecule.get_consensus, python dict/Counter/set semantics (iteration order is abstracted: the '
-        'call dictionary is compared as a set of entries)',
-        'the abstraction of a molecule (per read: orientation, reference_start/end, MD present, aligned (refpos, base, '
-        'phred, MD reference base) list) is computed by tools/impl_c14.py with pysam from the objects the molecule holds',
+        'modelled not verified: pysam (AlignedSegment.get_aligned_pairs(with_seq=True) = the raw entries the model starts '
+        'from: CIGAR + MD decoding, query_sequence / query_qualities, is_reverse, has_tag(MD); FastaFile.fetch: ValueError '
+        'for start<0, truncation at the contig end), pysamiterators.CachedFasta.fetch (python slice), numpy argmax/tie test '
+        'of Molecule.get_consensus, python dict/Counter/set semantics (iteration order is abstracted: the call dictionary '
+        'is compared as a set of entries)',
+        'the matches_only view, reference_start and reference_end are DERIVED in Coq from the raw entries (Model/C14x.v '
+        'matched / ref_start / ref_end, theorems C14_matches_only_view, C14_reference_span); that pysam reports the same '
+        '(reference_end = one past the last covered reference position, deletions and skips included) is checked on every '
+        'generated read (mode 8 against abstract_read of tools/impl_c14.py), not proved',
+        'tools/impl_c14.py raw_read / abstract_read copy what pysam reports for the reads the molecule holds (no computation '
+        'of its own beyond None -> -1 and character codes)',
+        'molecule.strand and the taps_strand in use are read from the molecule object at finalise (Fragment.strand / site '
+        'identification belong to C09): the mate-order theorems hold for a fixed strand',
         'tools/c14.py ast_tables + reflection dump of TAPS().context_mapping generate coq/Gen/GenTaps.v (both must agree)',
         'qual (mean phred, a float), XR/XG and YC tags are outside the property and not compared',
         'fragment counts per position are unbounded integers (Z) in the model; the implementation accumulates them in a '
@@ -608,6 +707,9 @@ class Prop(fw.PropBase):
         'contig (different molecules of a history on different contigs); '
         'skip_first/last_n_cycles consensus options are left at None',
         'reference characters are ASCII (str.upper modelled on a-z)',
+        'rwf (hypothesis of the raw-level theorems; measured hit rate in the evidence): per read the aligned bases have '
+        'reference positions >= 0, query bases in ACGTN, phred >= 0, no reference position twice, covered reference '
+        'positions strictly increasing -- what every pysam alignment satisfies',
     ]
 
     def regen(self):
@@ -636,6 +738,15 @@ class Prop(fw.PropBase):
         n = 2000 if quick else 60000
         for _ in range(n):
             cases.append(gen_case(self.rng))
+        # metamorphic twins (fragment order, mate order) of some of them; they are ordinary cases too
+        nt = 250 if quick else 5000
+        pool = [c for c in cases[-n:] if len(c['frags']) >= 2][:nt]
+        self.twins = []
+        for c in pool:
+            base, perm, swap = make_twins(c, self.rng)
+            k = len(cases)
+            cases += [base, perm, swap]
+            self.twins.append((k, k + 1, k + 2))
         return cases
 
     def gen_histories(self):
@@ -704,6 +815,87 @@ class Prop(fw.PropBase):
                     mops.append([kind, [[[] if a is None else a, [] if b is None else b] for a, b in r['gained']]])
             self.mh_inputs.append([[ord(ch) for ch in m['ref']], mops])
         return cases, res
+
+    def eval_twins(self, res):
+        """statements of C14_fragment_permutation / C14_mate_swap on the implementation's outcomes"""
+        self.twin_fail = []
+        tw = collections.Counter()
+        for b, p_, s_ in getattr(self, 'twins', []):
+            for kind, t in (('perm', p_), ('swap', s_)):
+                d = twin_compare(kind, res[b], res[t])
+                tw[kind + ('_not_comparable' if d is None else '_same_outcome' if d == '' else '_DIFFERENT')] += 1
+                if d:
+                    self.twin_fail.append((kind, b, t, d))
+        self.cov['metamorphic_on_implementation'] = dict(tw)
+
+    def eval_specb(self, cases, res):
+        """the Coq specification specb (mode 2; C14_specb_iff, C14_run_specb) on the implementation's outcomes"""
+        sp_in, sp_idx = [], []
+        for k, (c, r) in enumerate(zip(cases, res)):
+            if 'harness_error' in r:
+                continue
+            oc = outcome(canon_impl(r))
+            if oc is not None:
+                sp_in.append([raw_input(c, r), oc]); sp_idx.append(k)
+        sp_out = fw.run_model('C14', 2, sp_in) if sp_in else []
+        self.specb_fail = [k for k, v in zip(sp_idx, sp_out) if v == 0]
+        self.cov['specb_evaluated_on_impl_outcomes'] = sum(1 for v in sp_out if v in (0, 1))
+        self.cov['specb_false_on_impl_outcomes'] = len(self.specb_fail)
+        return sp_in, sp_out
+
+    def measure_raw(self, cases, res, hist):
+        """what the generated molecules exercise of the molecule abstraction (measured on the raw aligned pairs)"""
+        for c, r in zip(cases, res):
+            kw = c.get('kw') or {}
+            d1, d2 = kw.get('dove_R1_distance', 0), kw.get('dove_R2_distance', 0)
+            if d1 != d2:
+                hist['raw_dove_distances_differ'] += 1
+            hist['raw_molecules_fragments>=2'] += len(r['raw']) >= 2
+            for a, b in r['raw']:
+                ws = [x[0] if x is not None else None for x in (a, b)]
+                for w in ws:
+                    if w is None:
+                        continue
+                    ap = w[4]
+                    lead = 0
+                    while lead < len(ap) and ap[lead][1] < 0:
+                        lead += 1
+                    inner = ap[lead:]
+                    while inner and inner[-1][1] < 0:
+                        inner = inner[:-1]
+                    hist['raw_reads'] += 1
+                    hist['raw_reads_soft_clipped'] += len(inner) != len(ap)
+                    hist['raw_reads_insertion'] += any(e[1] < 0 for e in inner)
+                    hist['raw_reads_deletion'] += any(e[0] < 0 and e[2] != 0 for e in inner)
+                    hist['raw_reads_ref_skip'] += any(e[0] < 0 and e[1] >= 0 and e[2] == 0 for e in inner) and bool(w[1])
+                    hist['raw_reads_without_MD'] += not w[1]
+                if ws[0] is None or ws[1] is None:
+                    hist['raw_fragments_single_mate'] += 1
+                    continue
+                if ws[0][0] == ws[1][0]:
+                    hist['raw_fragments_same_orientation'] += 1
+                    continue
+                f, v = (ws[1], ws[0]) if ws[0][0] else (ws[0], ws[1])       # forward mate, reverse mate
+                fp = [e[1] for e in f[4] if e[1] >= 0]; vp = [e[1] for e in v[4] if e[1] >= 0]
+                if not fp or not vp:
+                    continue
+                df, dv = (d2, d1) if ws[0][0] else (d1, d2)
+                lo, hi = fp[0] + df, vp[-1] + 1 - dv - 1
+                hist['raw_fragments_inward_pair'] += 1
+                dove = vp[0] < fp[0] or fp[-1] > vp[-1]
+                hist['raw_fragments_dove_tailed'] += dove
+                hist['raw_fragments_mates_overlap'] += bool(set(fp) & set(vp))
+                hist['raw_fragments_empty_safe_span'] += lo > hi
+                if not c['unsafe']:
+                    out = sum(1 for w in (f, v) for e in w[4] if e[0] >= 0 and e[1] >= 0 and not (lo <= e[1] <= hi))
+                    hist['raw_aligned_bases_outside_safe_span'] += out
+                    hist['raw_fragments_with_bases_outside_safe_span'] += out > 0
+                fq = {e[1]: (f[2][e[0]], f[3][e[0]]) for e in f[4] if e[0] >= 0 and e[1] >= 0}
+                vq = {e[1]: (v[2][e[0]], v[3][e[0]]) for e in v[4] if e[0] >= 0 and e[1] >= 0}
+                both = [p for p in fq if p in vq]
+                hist['raw_overlap_positions_mates_disagree'] += sum(1 for p in both if fq[p][0] != vq[p][0])
+                hist['raw_overlap_positions_equal_phred_different_base'] += sum(
+                    1 for p in both if fq[p][0] != vq[p][0] and fq[p][1] == vq[p][1])
 
     # ---------------------------------------------------------------- K
     def correspondence(self):
@@ -774,7 +966,7 @@ class Prop(fw.PropBase):
         self.cov.update({
             'evaluations': len(cases),
             'distinct_nontrivial': len(nontrivial),
-            'rule': 'DEEP molecules (255/256/257/300/520 fragments for one base + 1-3 dissenting); HISTORIES ON ONE MOLECULE OBJECT (constructor, growth by add_fragment / add_molecule / _add_fragment, '
+            'rule': 'MOLECULE ABSTRACTION: every molecule is ALSO run through the model from the raw get_aligned_pairs(with_seq=True) entries of the reads it holds (mode 6: soft clips / insertions / deletions / skips, overlapping and dove-tailed mates, single mates, missing MD; the raw_* histogram entries are measured on these), the Coq abstraction (matches_only view, reference_start/end; mode 8) is compared with what pysam reports, the Coq specification specb (mode 2) is evaluated on the implementation outcome, and 250 (thorough 5000) molecules are re-run with their fragments in another order and with their mates swapped (metamorphic_on_implementation); DEEP molecules (255/256/257/300/520 fragments for one base + 1-3 dissenting); HISTORIES ON ONE MOLECULE OBJECT (constructor, growth by add_fragment / add_molecule / _add_fragment, '
                     '__finalise__ after most steps; every finalise compared with the calls from all fragments held then; '
                     'model mode 5, theorem C14_molecule_history); HISTORIES of 2-6 molecules on 2-3 contigs of different sequence called by ONE TAPS object (same '
                     'coordinates on different contigs and on the same contig again; model mode 4 = history through one '
@@ -798,6 +990,11 @@ class Prop(fw.PropBase):
         for c, r in zip(cases, res):
             if spec_violations(c, r):
                 sv += 1
+        self.eval_twins(res)
+        if self.twin_fail:
+            self.breaks.append(('specification', '%d molecules get different calls from the implementation when their '
+                                                 'fragments are listed in another order / their mates are swapped '
+                                                 '(theorems C14_fragment_permutation, C14_mate_swap)' % len(self.twin_fail)))
         tv = table_violations(self.live_table) if getattr(self, 'live_table', None) else []
         self.cov['statement_violations_on_impl_output'] = sv + len(tv)
         if sv or tv:
@@ -823,6 +1020,35 @@ class Prop(fw.PropBase):
         for k, (c, i, o, m) in enumerate(zip(cases, inputs, impl, mout)):
             if canon_model(m) != o:
                 dis.append({'index': k, 'case': c, 'model': canon_model(m), 'impl': o})
+        # ---- the molecule abstraction: the model run from the RAW aligned pairs (mode 6) against the same real objects,
+        # the abstraction itself (mode 8) against what pysam reports (reference_start/end, matches_only view), and the
+        # Coq specification specb (mode 2) evaluated on the implementation's outcome
+        rinputs = [raw_input(c, r) for c, r in zip(cases, res)]
+        self.rinputs = rinputs
+        from concurrent.futures import ThreadPoolExecutor
+        with ThreadPoolExecutor(max_workers=3) as ex:          # three passes of the extracted binary, side by side
+            f6, f8, f7 = [ex.submit(fw.run_model, 'C14', m, rinputs) for m in (6, 8, 7)]
+            rout, rabs, rpre = f6.result(), f8.result(), f7.result()
+        self.cov['raw_precondition_hit_rate'] = round(sum(1 for x in rpre if x == 1) / len(rpre), 4)
+        nabs = 0
+        for k, (i, ra) in enumerate(zip(inputs, rabs)):
+            if ra != i[8]:
+                nabs += 1
+                if nabs == 1:
+                    first_abs = {'index': k, 'model_abstraction': ra, 'pysam': i[8]}
+        if nabs:
+            raise fw.Broken('correspondence', 'pysam model: the abstraction computed in Coq from get_aligned_pairs(with_seq=True) '
+                            '(matches_only view, reference_start, reference_end) differs from what pysam reports for %d '
+                            'molecules; first: %s' % (nabs, json.dumps(first_abs)[:1200]))
+        for k, (c, o, m) in enumerate(zip(cases, impl, rout)):
+            if canon_model(m) != o:
+                dis.append({'index': k, 'case': c, 'model': canon_model(m), 'impl': o, 'from': 'raw aligned pairs (mode 6)'})
+        sp_in, sp_out = self.eval_specb(cases, res)
+        if self.specb_fail:
+            self.breaks.append(('specification', 'the Coq specification specb (theorem C14_specb_iff) is false on the '
+                                                 'implementation outcome of %d molecules' % len(self.specb_fail)))
+        self.measure_raw(cases, res, hist)
+        self.cov['histogram'] = dict(hist)
         self.cov['traces_validated_against_impl'] = len(cases)
         self.cov['disagreements'] = len(dis)
         # the generated table through the extracted model, all 125 contexts + truncated ones
@@ -834,20 +1060,22 @@ class Prop(fw.PropBase):
             exp = [ord(lt['False'].get(k, '\0')), ord(lt['True'].get(k, '\0'))]
             if m != exp:
                 dis.append({'index': -1, 'case': {'table_key': k}, 'model': m, 'impl': exp})
-        idx = sorted(self.rng.sample(range(ns), 90))
-        hidx = sorted(self.rng.sample(range(len(hin)), min(10, len(hin))))
-        ok, nm, log = fw.vm_crosscheck('C14', 0, [(inputs[i], mout[i]) for i in idx])
-        if ok and hidx:
-            hm = fw.run_model('C14', 4, [hin[i] for i in hidx])
-            ok, nm2, log = fw.vm_crosscheck('C14', 4, [(hin[i], o) for i, o in zip(hidx, hm)])
-            nm += nm2
-            idx = idx + hidx
-        if ok and self.mh_inputs:
-            midx = sorted(self.rng.sample(range(len(self.mh_inputs)), min(10, len(self.mh_inputs))))
-            mm = fw.run_model('C14', 5, [self.mh_inputs[i] for i in midx])
-            ok, nm3, log = fw.vm_crosscheck('C14', 5, [(self.mh_inputs[i], o) for i, o in zip(midx, mm)])
-            nm += nm3
-            idx = idx + midx
+        # vm_compute cross-check of the extracted model, all modes in one coqc run (run_C14x = run_C14 on the old modes)
+        idx = sorted(self.rng.sample(range(ns), 60))
+        hidx = sorted(self.rng.sample(range(len(hin)), min(8, len(hin))))
+        hm = fw.run_model('C14', 4, [hin[i] for i in hidx]) if hidx else []
+        midx = sorted(self.rng.sample(range(len(self.mh_inputs)), min(8, len(self.mh_inputs)))) if self.mh_inputs else []
+        mm = fw.run_model('C14', 5, [self.mh_inputs[i] for i in midx]) if midx else []
+        ridx = sorted(self.rng.sample(range(len(rinputs)), min(40, len(rinputs))))
+        sidx = sorted(self.rng.sample(range(len(sp_in)), min(20, len(sp_in)))) if sp_in else []
+        ok, nm, ncases, log = vm_crosscheck_multi([
+            (0, [(inputs[i], mout[i]) for i in idx]),
+            (4, [(hin[i], o) for i, o in zip(hidx, hm)]),
+            (5, [(self.mh_inputs[i], o) for i, o in zip(midx, mm)]),
+            (6, [(rinputs[i], rout[i]) for i in ridx]),            # the caller from the raw aligned pairs
+            (8, [(rinputs[i], rabs[i]) for i in ridx[:10]]),       # the abstraction
+            (2, [(sp_in[i], sp_out[i]) for i in sidx])])           # specb on implementation outcomes
+        idx = list(range(ncases))
         self.cov['vm_compute_crosscheck'] = {'cases': len(idx), 'mismatches': nm}
         if not ok:
             raise fw.Broken('extraction', 'vm_compute and extracted model disagree: ' + log[-800:])
@@ -913,3 +1141,39 @@ class Prop(fw.PropBase):
                                         'expected': 'see what'})
         for key in sorted(best):
             self.witnesses.append(best[key][1])
+        keys = ('ref', 'refkind', 'klass', 'taps_strand', 'unsafe', 'invert', 'force', 'kw', 'frags')
+        # fragment order / mate order (C14_fragment_permutation, C14_mate_swap) on the implementation
+        if getattr(self, 'twin_fail', None) is None and getattr(self, 'twins', None):
+            self.eval_twins(self.res)
+        seen_kind = set()
+        for kind, b, t, d in sorted(getattr(self, 'twin_fail', None) or [], key=lambda x: len(json.dumps(self.cases[x[1]]['frags']))):
+            if kind in seen_kind:
+                continue
+            seen_kind.add(kind)
+            self.witnesses.append({
+                'key': 'metamorphic:' + kind,
+                'what': ('the same fragments in another order' if kind == 'perm' else
+                         'the same fragments with the mates of every fragment swapped (dove distances swapped with them, '
+                         'molecule.strand unchanged)') + ': ' + d,
+                'input': {'molecule': {x: self.cases[b][x] for x in keys if x in self.cases[b]},
+                          'twin': {x: self.cases[t][x] for x in keys if x in self.cases[t]}},
+                'impl': {'molecule': self.res[b].get('calls'), 'twin': self.res[t].get('calls')},
+                'expected': 'the same call dictionary and tags'})
+        # the Coq specification specb on the implementation's outcomes, where the transcription above found nothing
+        if getattr(self, 'specb_fail', None) is None and getattr(self, 'model_ok', False):
+            try:
+                self.eval_specb(self.cases, self.res)
+            except Exception as e:
+                self.notes.append('specb could not be evaluated: %r' % (e,))
+        if not self.witnesses:
+            for k in sorted(getattr(self, 'specb_fail', None) or [], key=lambda k: len(json.dumps(self.res[k].get('raw'))))[:1]:
+                c, r = self.cases[k], self.res[k]
+                self.witnesses.append({
+                    'key': 'specb',
+                    'what': 'the outcome of obtain_methylation_calls does not satisfy the specification Spec (Coq, theorem '
+                            'C14_specb_iff): the call dictionary is not exactly the set of strict-majority positions of the '
+                            'fragments held, with cov = number of calling fragments and the specified letter',
+                    'input': {x: c[x] for x in keys if x in c} if c.get('frags') else
+                             {'configuration': {x: c[x] for x in keys if x in c and x != 'frags'}, 'fragments_held_raw': r.get('raw')},
+                    'impl': {'calls': r.get('calls'), 'strand': r.get('strand'), 'error': r.get('error')},
+                    'expected': 'specb = true'})
